@@ -31,7 +31,9 @@ inductive Phase where
   deriving Repr, DecidableEq
 
 structure Params where
-  ttl : Nat        -- lock TTL = wait timeout (CreateLock passes the same duration)
+  ttl : Nat        -- lock TTL (`SET … PX ttl`)
+  wait : Nat       -- wait timeout of `Lock` (store CreateLock passes the same duration for both;
+                   -- `lock/redis.New(cli, key, waitTimeout, lockTTL)` keeps them apart)
   interval : Nat   -- retry interval (500 ms)
   deriving Repr
 
@@ -52,7 +54,7 @@ def setCl (s : State) (i : Nat) (p : Phase) : State := { s with cl := fun j => i
 
 /-- `Lock`/`TryLock` entered: `Obtain` draws its token, first attempt is due immediately -/
 def begin (p : Params) (s : State) (i : Nat) (m : Mode) : State :=
-  { setCl s i (.trying m s.nextTok s.wall (s.wall + p.ttl)) with nextTok := s.nextTok + 1 }
+  { setCl s i (.trying m s.nextTok s.wall (s.wall + p.wait)) with nextTok := s.nextTok + 1 }
 
 /-- one `SET NX PX` attempt of a client inside `Obtain` -/
 def attempt (p : Params) (s : State) (i : Nat) (m : Mode) (tok deadline : Nat) : State :=
@@ -73,7 +75,7 @@ inductive Step (p : Params) : State → State → Prop
   | attempt (s i m tok nextAt deadline) : s.cl i = .trying m tok nextAt deadline →
       nextAt ≤ s.wall → s.wall < deadline →
       Step p s (attempt p s i m tok deadline)
-  | giveup (s i tok nextAt deadline) : s.cl i = .trying .lock tok nextAt deadline → deadline ≤ s.wall →
+  | giveup (s i m tok nextAt deadline) : s.cl i = .trying m tok nextAt deadline → deadline ≤ s.wall →
       Step p s (setCl s i .failed)
   | release (s i tok) : s.cl i = .holding tok → Step p s (release s i tok)
   | tickServer (s) : Step p s { s with now := s.now + 1 }
@@ -134,7 +136,7 @@ def exec (p : Params) (s : State) : Cmd → State × Res
       | .trying m tok _ dl =>
         let s2 := attempt p s1 i m tok dl
         match s2.cl i with
-        | .trying _ _ _ dl' => let s3 := setCl { s2 with wall := dl' } i .failed; (s3, .notObtained)
+        | .trying _ _ _ dl' => let s3 := setCl { s2 with wall := max s2.wall dl' } i .failed; (s3, .notObtained)
         | _ => (s2, phaseRes s2 i)
       | _ => (s1, .misuse)
     | _ => (s, .misuse)
@@ -164,10 +166,12 @@ def exec (p : Params) (s : State) : Cmd → State × Res
     match s.cl i with
     | .trying m tok na dl =>
       let s1 := { s with wall := max s.wall na }
-      let s2 := attempt p s1 i m tok dl
-      match s2.cl i with
-      | .trying _ _ _ dl' => (setCl { s2 with wall := dl' } i .failed, .notObtained)
-      | _ => (s2, phaseRes s2 i)
+      if s1.wall < dl then
+        let s2 := attempt p s1 i m tok dl
+        match s2.cl i with
+        | .trying _ _ _ dl' => (setCl { s2 with wall := max s2.wall dl' } i .failed, .notObtained)
+        | _ => (s2, phaseRes s2 i)
+      else (setCl { s with wall := max s.wall dl } i .failed, .notObtained)
     | _ => (s, phaseRes s i)
   | .observe i =>
     (s, match s.cl i with
